@@ -58,6 +58,7 @@ func propSpecs() map[string]*PropSpec {
 				{Name: "H02", Quick: P{"allowmask": 12, "requiremask": 4, "excludemask": 16, "strings": 3, "reqsets": 11, "L": 2, "T": 2},
 					Thorough: P{"allowmask": 31, "requiremask": 31, "excludemask": 31, "strings": 1, "reqsets": 1, "L": 1, "T": 1},
 					Reach:    []string{"returned", "accepted", "empty-alphabet"}},
+				{Name: "H02", Label: "long-with-two-required-sets", Quick: P{"allowmask": 0, "requiremask": 0, "excludemask": 0, "strings": 1, "reqsetmin": 4, "reqsets": 5, "Lmin": 26, "L": 26, "T": 2}, Thorough: P{"allowmask": 0, "requiremask": 0, "excludemask": 0, "strings": 2, "reqsetmin": 4, "reqsets": 6, "Lmin": 26, "L": 27, "T": 2}, Reach: []string{"accepted", "accepted-after-retry"}},
 				{Name: "H02", Label: "generated-again", Quick: P{"allowmask": 4, "requiremask": 4, "excludemask": 0, "strings": 2, "reqsets": 3, "L": 2, "T": 1, "again": 1}, Thorough: P{"allowmask": 12, "requiremask": 4, "excludemask": 16, "strings": 2, "reqsets": 4, "L": 2, "T": 2, "again": 1}, Reach: []string{"generated-again"}},
 				{Name: "H02", Label: "after-sibling-call", Quick: P{"allowmask": 4, "requiremask": 0, "excludemask": 16, "strings": 2, "reqsets": 11, "L": 1, "T": 1, "primes": 5}, Thorough: P{"allowmask": 4, "requiremask": 4, "excludemask": 16, "strings": 3, "reqsets": 11, "L": 2, "T": 2, "primes": 5}, Reach: []string{"returned", "primed"}},
 				{Name: "H02", Label: "custom-strings", ThoroughOnly: true, Thorough: P{"allowmask": 14, "requiremask": 12, "excludemask": 20, "strings": 8, "reqsets": 11, "L": 2, "T": 2},
@@ -71,7 +72,7 @@ func propSpecs() map[string]*PropSpec {
 			Harnesses: []HSpec{
 				{Name: "H04", Quick: P{"L": 2}, Thorough: P{"L": 4}, Reach: []string{"returned", "structure", "capitalised"}},
 				{Name: "H04", Label: "long", Quick: P{"Lmin": 64, "L": 66, "lists": 2, "schemes": 5, "seps": 2}, Thorough: P{"Lmin": 63, "L": 70, "lists": 2, "schemes": 5, "seps": 2}, Reach: []string{"returned", "structure", "capitalised"}},
-				{Name: "H04", Label: "three-words-all-separators", Quick: P{"Lmin": 3, "L": 3, "lists": 3, "schemes": 1}, Thorough: P{"Lmin": 3, "L": 4, "lists": 4, "schemes": 2}, Reach: []string{"returned", "structure"}},
+				{Name: "H04", Label: "three-words-all-separators", Quick: P{"Lmin": 3, "L": 4, "lists": 3, "schemes": 4}, Thorough: P{"Lmin": 3, "L": 5, "lists": 4, "schemes": 6}, Reach: []string{"returned", "structure"}},
 				{Name: "H04", Label: "after-capitalising-call", Quick: P{"L": 2, "lists": 4, "seps": 3, "prime": 1}, Thorough: P{"L": 3, "lists": 6, "seps": 5, "prime": 1}, Reach: []string{"returned", "structure", "primed"}},
 				{Name: "H01", Label: "kernel-contract", Int: true, Quick: P{"unwind:randomUint32n": 5, "unwind_expected": 1}, Thorough: P{"unwind:randomUint32n": 10, "unwind_expected": 1}, Reach: []string{"returned", "after-rejection"}},
 				{Name: "H01P", Label: "kernel-contract", Reach: []string{"returned"}},
@@ -84,7 +85,7 @@ func propSpecs() map[string]*PropSpec {
 			Harnesses: []HSpec{
 				{Name: "H04", Quick: P{"L": 2}, Thorough: P{"L": 4}, Reach: []string{"returned", "structure", "capitalised"}},
 				{Name: "H04", Label: "long", Quick: P{"Lmin": 64, "L": 66, "lists": 2, "schemes": 5, "seps": 2}, Thorough: P{"Lmin": 63, "L": 70, "lists": 2, "schemes": 5, "seps": 2}, Reach: []string{"returned", "structure", "capitalised"}},
-				{Name: "H04", Label: "three-words-all-separators", Quick: P{"Lmin": 3, "L": 3, "lists": 3, "schemes": 1}, Thorough: P{"Lmin": 3, "L": 4, "lists": 4, "schemes": 2}, Reach: []string{"returned", "structure"}},
+				{Name: "H04", Label: "three-words-all-separators", Quick: P{"Lmin": 3, "L": 4, "lists": 3, "schemes": 4}, Thorough: P{"Lmin": 3, "L": 5, "lists": 4, "schemes": 6}, Reach: []string{"returned", "structure"}},
 				{Name: "H04", Label: "after-capitalising-call", Quick: P{"L": 2, "lists": 4, "seps": 3, "prime": 1}, Thorough: P{"L": 3, "lists": 6, "seps": 5, "prime": 1}, Reach: []string{"returned", "structure", "primed"}},
 				{Name: "H01", Label: "kernel-contract", Int: true, Quick: P{"unwind:randomUint32n": 5, "unwind_expected": 1}, Thorough: P{"unwind:randomUint32n": 10, "unwind_expected": 1}, Reach: []string{"returned", "after-rejection"}},
 				{Name: "H01P", Label: "kernel-contract", Reach: []string{"returned"}},
@@ -95,11 +96,11 @@ func propSpecs() map[string]*PropSpec {
 		{
 			ID: "C06", Sub: "spg", Level: "model_checking",
 			Harnesses: []HSpec{
-				{Name: "H06w", Quick: P{"L": 2, "lists": 11}, Thorough: P{"L": 3, "lists": 11}, Reach: []string{"compared"}},
+				{Name: "H06w", Quick: P{"L": 2, "lists": 13}, Thorough: P{"L": 3, "lists": 13}, Reach: []string{"compared"}},
 				{Name: "H06c", Quick: P{"allowmask": 12, "requiremask": 4, "excludemask": 16, "strings": 3, "reqsets": 11, "L": 2}, Thorough: P{"allowmask": 14, "requiremask": 12, "excludemask": 20, "strings": 5, "reqsets": 11, "L": 3}, Reach: []string{"computed", "primed"}},
 				{Name: "H06c", Label: "beyond-float64", Quick: P{"allowmask": 6, "requiremask": 4, "excludemask": 0, "strings": 1, "reqsets": 2, "L": 1, "bigL": 1, "primes": 1}, Thorough: P{"allowmask": 14, "requiremask": 12, "excludemask": 16, "strings": 2, "reqsets": 3, "L": 1, "bigL": 1, "primes": 1}, Reach: []string{"computed"}},
 				{Name: "H02", Label: "entropy-field", Quick: P{"allowmask": 4, "requiremask": 4, "excludemask": 16, "strings": 2, "reqsets": 6, "L": 2, "T": 2}, Thorough: P{"allowmask": 12, "requiremask": 4, "excludemask": 16, "strings": 3, "reqsets": 11, "L": 2, "T": 2}, Reach: []string{"accepted"}},
-				{Name: "H04", Label: "entropy-field", Quick: P{"L": 2, "lists": 11, "seps": 3}, Thorough: P{"L": 3, "lists": 11}, Reach: []string{"structure"}},
+				{Name: "H04", Label: "entropy-field", Quick: P{"L": 2, "lists": 13, "seps": 3}, Thorough: P{"L": 3, "lists": 13}, Reach: []string{"structure"}},
 			},
 			Bounds: map[string]string{
 				"H06w":    "nine word lists (1..7 words; with a word that does not change under title-casing, a pre-capitalised word, leading punctuation, multi-part words), Length 1..L (quick 2, thorough 3), all schemes, separator none / '-' / SFDigits1; two symbolic runs of Generate per recipe: equal token sequences must come from equal word and separator draws (and equal capitalisation draws when every word is capitalisable); Entropy() against log2 of the number of distinguishable draw vectors read off the draw log",
@@ -115,7 +116,7 @@ func propSpecs() map[string]*PropSpec {
 				{Name: "H07", Quick: P{"a": 2, "k": 2, "m": 2, "L": 3}, Thorough: P{"a": 2, "k": 3, "m": 2, "L": 3}, Reach: []string{"computed", "overlapping-required-sets", "impossible"}},
 				{Name: "H07", Label: "long", Quick: P{"a": 2, "k": 2, "m": 2, "big": 1}, Thorough: P{"a": 2, "k": 3, "m": 2, "big": 1}, Reach: []string{"computed", "overlapping-required-sets"}},
 				{Name: "H07", Label: "word-size-boundaries", Quick: P{"a": 2, "k": 2, "m": 2, "big": 2}, Thorough: P{"a": 2, "k": 3, "m": 2, "big": 2}, Reach: []string{"computed", "overlapping-required-sets"}},
-				{Name: "H07", Label: "class-flags", Quick: P{"a": 0, "k": 2, "m": 1, "L": 2, "flags": 4}, Thorough: P{"a": 1, "k": 2, "m": 1, "L": 3, "flags": 4}, Reach: []string{"computed", "overlapping-required-sets", "premise-excluded"}},
+				{Name: "H07", Label: "class-flags", Quick: P{"a": 0, "k": 1, "m": 2, "L": 2, "flags": 4}, Thorough: P{"a": 1, "k": 2, "m": 1, "L": 3, "flags": 4}, Reach: []string{"computed", "overlapping-required-sets", "premise-excluded"}},
 				{Name: "H07", Label: "after-sibling-call", Quick: P{"a": 1, "k": 2, "m": 2, "L": 2, "primes": 5}, Thorough: P{"a": 2, "k": 2, "m": 2, "L": 3, "primes": 5}, Reach: []string{"computed", "primed"}},
 				{Name: "H07", Label: "four-sets", ThoroughOnly: true, Thorough: P{"a": 1, "k": 4, "m": 1, "L": 3}, Reach: []string{"computed", "overlapping-required-sets"}},
 			},
@@ -132,6 +133,7 @@ func propSpecs() map[string]*PropSpec {
 				{Name: "H13n", Reach: []string{"refused"}},
 				{Name: "H13b", Quick: P{"a": 1, "k": 2, "m": 2, "L": 2, "flags": 1}, Thorough: P{"a": 2, "k": 2, "m": 2, "L": 3, "flags": 1}, Reach: []string{"computed", "comfortably-acceptable", "clearly-unacceptable"}},
 				{Name: "H13b", Label: "class-flags", Quick: P{"a": 0, "k": 2, "m": 1, "L": 2, "flags": 3}, Thorough: P{"a": 1, "k": 2, "m": 1, "L": 3, "flags": 4}, Reach: []string{"computed", "comfortably-acceptable", "clearly-unacceptable"}},
+				{Name: "H13b", Label: "exclude-chars", Quick: P{"a": 2, "k": 1, "m": 2, "e": 2, "L": 2, "flags": 1}, Thorough: P{"a": 2, "k": 2, "m": 2, "e": 2, "L": 3, "flags": 1}, Reach: []string{"computed"}},
 				{Name: "H13b", Label: "beyond-float64", Quick: P{"a": 0, "k": 1, "m": 1, "flags": 4, "bigL": 1}, Thorough: P{"a": 1, "k": 2, "m": 1, "flags": 4, "bigL": 1}, Reach: []string{"computed"}},
 				{Name: "H13b", Label: "after-sibling-call", Quick: P{"a": 0, "k": 2, "m": 2, "L": 2, "flags": 1, "primes": 5}, Thorough: P{"a": 1, "k": 2, "m": 2, "L": 3, "flags": 1, "primes": 5}, Reach: []string{"computed", "primed"}},
 				{Name: "H02", Label: "retry-budget", Quick: P{"allowmask": 4, "requiremask": 4, "excludemask": 16, "strings": 2, "reqsets": 6, "L": 2, "T": 3}, Thorough: P{"allowmask": 12, "requiremask": 12, "excludemask": 16, "strings": 3, "reqsets": 11, "L": 2, "T": 4}, Reach: []string{"exhausted", "accepted-after-retry"}},
